@@ -17,7 +17,8 @@ RULE = ("command lists of 1-7 entries, each naming any subset of *earlier* entri
         "configuration) plus default-command vectors (empty, option first, and - with an optional '*' positional on every command - "
         "a first word that is no command name: '-', '--', 'h', 'help', '', ...) and the standard -v / --color / --no-color options. Non-trivial = "
         "graph has a node with >=2 parents or a chain of depth >=3; distinct by (graph, assignment)."
-        " Also: a second switch of the same parser writing to a destination in use (--no-X with X's dest, dest='verbose'); the vector given as list / tuple / through sys.argv; the caller's list must come back unchanged.")
+        " Also: a second switch of the same parser writing to a destination in use (--no-X with X's dest, dest='verbose'); the vector given as list / tuple / through sys.argv; the caller's list must come back unchanged."
+        " An option with dest 'command' (-c/--command); the result of an earlier call handed back as namespace=.")
 ASSUMPTIONS = [
     "each flag is added to exactly one parser (adding one flag twice along a path is an argparse conflict by design)",
     "internal '!' names are not used as commands on the command line",
@@ -108,6 +109,13 @@ def evaluate(case):
                     tgt.add_argument("--loud-" + o["flag"][6:], action="store_const", const=7, default=0, dest="verbose",
                                      help="very verbose")
                 classes.add("second_option_with_the_same_dest_" + o["twin"])
+        if case.get("cmd_opt") is not None:
+            # an option whose destination is called 'command' (-c / --command CMD of a tool that runs other programs)
+            import argparse
+            tgt = ap if case["cmd_opt"] < 0 else ap.get_cmd_parser(cmds[case["cmd_opt"] % len(cmds)]["name"])
+            tgt.add_argument("-c", "--command", action="store_const", const="given", default=argparse.SUPPRESS,
+                             help="a command to run")
+            classes.add("option_with_dest_command")
         if case.get("clash") is not None:
             # an option added to an ancestor shares one option string with a flag a descendant already owns. Refusing it
             # (ArgumentError) is fine; if it is accepted, the new option is an option of that ancestor like any other
@@ -223,6 +231,17 @@ def evaluate(case):
                 f.append(("standard_option_rejected", f"{vec} -> {st_} {res!r}"))
             elif not chk(res) or res.command != name:
                 f.append(("standard_option_parsed_wrong", f"{vec} -> {res!r}"))
+    if case.get("cmd_opt") is not None:
+        t = -1 if case["cmd_opt"] < 0 else case["cmd_opt"] % len(cmds)
+        for ci in publics:
+            evals += 1
+            st_, res = parse([cmds[ci]["name"], "--command"])
+            want = t < 0 or t in anc[ci]
+            if want and st_ != "ok":
+                f.append(("inherited_option_rejected", f"[{cmds[ci]['name']}, --command] -> {st_} {res!r}; option with dest "
+                          f"'command' added to {'ArgParser' if t < 0 else cmds[t]['name']}"))
+            elif not want and st_ == "ok":
+                f.append(("foreign_option_accepted", f"[{cmds[ci]['name']}, --command] -> {res!r}"))
     # default command
     dname = cmds[eff_default]["name"]
     vecs = [[]] + [[o["flag"]] for o in case["opts"]] + [["-v"], ["--no-color"]]
@@ -238,6 +257,24 @@ def evaluate(case):
             f.append(("default_command_not_applied", f"{vec} -> {st1} {r1!r} but {[dname] + vec} -> {st2} {r2!r}"))
         elif st1 == "ok" and r1.command != dname:
             f.append(("default_command_not_applied", f"{vec} -> {r1!r}"))
+    if case.get("ns_reuse") and case.get("cmd_opt") is None:
+        # the result of an earlier call handed back as namespace= : vectors without a command name still go to the default
+        other = [cmds[ci]["name"] for ci in publics if cmds[ci]["name"] != dname]
+        if other:
+            try:
+                with contextlib.redirect_stderr(io.StringIO()), contextlib.redirect_stdout(io.StringIO()):
+                    ns = ap.parse_args([other[case["ns_reuse"] % len(other)]])
+                    for vec in ([], ["-v"], ["--no-color"]):
+                        evals += 1
+                        r = ap.parse_args(list(vec), namespace=ns)
+                        if r.command != dname:
+                            f.append(("default_command_not_applied", f"{vec} with namespace= the result of [{ns.command!r}] -> "
+                                      f"command {r.command!r}, default is {dname!r}"))
+                            break
+                        ns = ap.parse_args([other[case["ns_reuse"] % len(other)]])
+                classes.add("earlier_result_reused_as_namespace")
+            except SystemExit as e:
+                f.append(("default_command_not_applied", f"namespace reuse -> exit {e.code}"))
     if dflt is not None:
         classes.add("explicit_default")
     return Outcome(nt, sorted(classes), f[:6], key=key, evals=evals)
@@ -281,7 +318,9 @@ def st_case(draw):
             "positional": draw(st.booleans()), "words": words,
             "commands_as": draw(st.sampled_from(["list", "list", "tuple", "iterator"])),
             "clash": draw(st.sampled_from([None, None, None, None, 0, 1, 2])),
-            "argv_from": draw(st.sampled_from(["list", "list", "sys", "tuple"]))}
+            "argv_from": draw(st.sampled_from(["list", "list", "sys", "tuple"])),
+            "cmd_opt": draw(st.sampled_from([None, None, None, -1, 0, 1, 2, 3])),
+            "ns_reuse": draw(st.sampled_from([0, 0, 1, 2]))}
 
 
 def regression_cases():
